@@ -43,7 +43,7 @@ pub fn decode(ctx: &Ctx, tape: &[u32], disk: Option<DiskCfg>, subqueries: bool) 
         g.query(0)
     };
     let sql = query.print(Dialect::Rl);
-    let sql_unlimited = query.print_opts(Dialect::Rl, true, false);
+    let sql_unlimited = query.print_unlimited(Dialect::Rl);
     OptCase { db, stats, stats2, query, sql, sql_unlimited }
 }
 
